@@ -134,4 +134,17 @@ theorem c03_crc_depends_exactly (p q : Point)
   unfold pcrc
   rw [h1, h2, h3, h4, h5]
 
+/-- non-vacuity: a reachable store with a chain R → a → b, points on both nodes, a refused write in between, whose
+    stored hashes are non-zero and verify -/
+example :
+    let ops : List WOp := [
+      .ep [97] [] [{ type := tombstoneT, time := 3 }, { type := nodeTypeT, text := [100], time := 3 }],
+      .ep [98] [97] [{ type := tombstoneT, time := 4 }, { type := nodeTypeT, text := [100], time := 4 }],
+      .np [98] [{ type := [1], time := 5, value := 4607182418800017408 }],
+      .ep [97] [98] [{ type := tombstoneT, time := 6 }, { type := nodeTypeT, text := [100], time := 6 }],   -- a cycle: refused
+      .np [97] [{ type := [1], key := [49], time := 7, value := 4611686018427387904 }]]
+    (run {} ops).edges.length = 2 ∧ (run {} ops).nodePts.length = 2 ∧
+      (run {} ops).edges.all (fun e => e.hash != 0) = true ∧ hashInv (run {} ops) = true := by
+  decide +kernel
+
 end Siot.Store
